@@ -459,6 +459,8 @@ def judgeE2e (ops impl : List String) : Bool × String :=
         | none, some b => (false, b)
 
 def judge (ops impl : List String) : Bool × String :=
+  -- a case the harness could not even set up (e.g. a shrunk case whose `hit` has no `file`) says nothing
+  if impl = ["bad-op"] then (true, "not-applicable: malformed case") else
   match ops with
   | "kind fld" :: rest => judgeFld rest impl
   | "kind raw" :: _ =>
